@@ -76,7 +76,7 @@ def semver_like(rng, sysi, strict=False):
 PEP_PRE = [b"a", b"b", b"rc", b"alpha", b"beta", b"c", b"pre", b"preview", b"A", b"RC", b"Beta"]
 PEP_POST = [b"post", b"rev", b"r", b"POST"]
 PEP_LOCAL = [b"abc", b"ABC", b"1", b"01", b"ubuntu.1", b"ubuntu-1", b"a_b", b"1.2", b"x.10", b"x.9", b"a..b",
-             b"18446744073709551616", b"18446744073709551615"]
+             b"18446744073709551616", b"18446744073709551615", b"9", b"10", b"2", b"20240101123456789012", b"x.9", b"x.20240101123456789012"]
 
 
 def pep440(rng, strict=False):
@@ -190,6 +190,8 @@ def variants(rng, sysi, s):
     head, sep, tail = s.partition(b"+")
     core, dash, pre = head.partition(b"-")
     k = rng.randrange(7)
+    if sysi == 6 and rng.random() < 0.25:
+        k = 5          # PyPI: local labels are a comparison level of their own
     if k == 6:
         # the core extended by zero components and then a non-zero one (two different tails): equal
         # prefixes of different lengths must still be told apart by a later component
@@ -223,7 +225,16 @@ def variants(rng, sysi, s):
                 out.append(head + b"+" + tail.rsplit(b".", 1)[0])
             out.append(head)
         else:
-            out.append(head + b"+" + rng.choice([b"abc", b"abc.1", b"1", b"1.2"]))
+            # several local labels on one public version: small numbers, numbers beyond uint64, text
+            big = rng.choice([b"20240101123456789012", b"18446744073709551616", b"99999999999999999999"])
+            if rng.random() < 0.5:
+                # two small numbers whose text order brackets a number beyond uint64
+                lo = rng.choice([b"9", b"3", b"5"])
+                labs = [lo, rng.choice([b"10", b"11", b"100"]), big, b"x." + lo, b"x." + big]
+            else:
+                labs = rng.sample([b"abc", b"abc.1", b"1", b"1.2", b"9", b"10", big, b"2"], 3)
+            for lab in labs:
+                out.append(head + b"+" + lab)
     return [v for v in out if v != s]
 
 
